@@ -11,14 +11,14 @@ PROPS["C03"] = dict(
     rule="A case = (processor configuration, thread programs, exporter behaviour, schedule).",
     assumptions=SCHED_ASSUMPTIONS + [SC_NOTE],
     runs=[
-        run("bsp", "c03_sched", "bsp_sched", "rc", dict(procs=6, cases=7000), dict(procs=10, cases=60000), asan_extra=SCHED_ASAN),
-        run("blp", "c03_sched", "blp_sched", "rc", dict(procs=6, cases=7000), dict(procs=6, cases=60000), asan_extra=SCHED_ASAN),
+        run("bsp", "c03_sched", "bsp_sched", "rc", dict(procs=6, cases=12000), dict(procs=10, cases=250000), asan_extra=SCHED_ASAN),
+        run("blp", "c03_sched", "blp_sched", "rc", dict(procs=6, cases=12000), dict(procs=6, cases=250000), asan_extra=SCHED_ASAN),
         run("bsp-threads-tsan", "c03_thr_tsan", "bsp_threads", "rc", dict(procs=1, cases=150), dict(procs=3, cases=3000), deterministic=False, replay_bin="c03_thr_tsan"),
         run("blp-threads-tsan", "c03_thr_tsan", "blp_threads", "rc", dict(procs=1, cases=150), dict(procs=3, cases=3000), deterministic=False, replay_bin="c03_thr_tsan"),
         run("bsp-threads", "c03_thr", "bsp_threads", "rc", dict(procs=1, cases=150), dict(procs=3, cases=3000), deterministic=False),
         run("blp-threads", "c03_thr", "blp_threads", "rc", dict(procs=1, cases=150), dict(procs=3, cases=3000), deterministic=False),
-        run("simple", "c03_sched", "simple_sched", "rc", dict(procs=3, cases=8000), dict(procs=4, cases=60000), asan_extra=SCHED_ASAN),
-        run("reader", "c03_sched", "reader_sched", "rc", dict(procs=4, cases=6000), dict(procs=6, cases=50000), asan_extra=SCHED_ASAN),
+        run("simple", "c03_sched", "simple_sched", "rc", dict(procs=3, cases=12000), dict(procs=4, cases=250000), asan_extra=SCHED_ASAN),
+        run("reader", "c03_sched", "reader_sched", "rc", dict(procs=4, cases=10000), dict(procs=6, cases=200000), asan_extra=SCHED_ASAN),
         run("simple-span-threads-tsan", "c03_simple_thr_tsan", "simple_span_threads", "rc", dict(procs=1, cases=60), dict(procs=2, cases=1500), deterministic=False, replay_bin="c03_simple_thr_tsan"),
         run("simple-log-threads-tsan", "c03_simple_thr_tsan", "simple_log_threads", "rc", dict(procs=1, cases=60), dict(procs=2, cases=1500), deterministic=False, replay_bin="c03_simple_thr_tsan"),
         run("simple-span-threads", "c03_simple_thr", "simple_span_threads", "rc", dict(procs=1, cases=60), dict(procs=2, cases=1500), deterministic=False),
